@@ -6,6 +6,7 @@ import (
 	"time"
 
 	"pxverif/core"
+	"pxverif/gen"
 )
 
 // OfflineInput is what the offline log checkers need: they do not depend on the driver that produced the history
@@ -509,7 +510,8 @@ func (q *seqRun) offlineDefinitions(evs []core.Event) {
 		if info.Vars["__jobID"] != e.Job {
 			q.find([]string{"C18"}, "C18:job-identity-variable", "J%d task %s carries job identity %v", j.Ord, e.Task, info.Vars["__jobID"])
 		}
-		if j.Spec.Def.StartDelay > 0 {
+		if j.Spec.Def.StartDelay >= gen.LongDelay {
+			// logical delays only (they never expire by themselves): the driver fires them through StartDelayedJob
 			if fc, ok := fireCall[e.Job]; !ok || fc > e.Seq {
 				q.find([]string{"C16", "C07"}, "C16:start-delay-of-accepted-definition-ignored", "J%d was accepted under a start delay but task %s began before the delay expired", j.Ord, e.Task)
 			}
